@@ -446,6 +446,12 @@ where
         let mut shift = -&jac_inv * &derivative;
         guess += &shift;
 
+        // Already converged (e.g. a solution at rest): the Broyden update below would divide
+        // by the squared length of a zero shift.
+        if shift.norm() <= self.tolerance.real() {
+            return Ok(guess);
+        }
+
         while n < 1000 {
             let derivative_last = derivative;
             derivative = g(
